@@ -283,39 +283,69 @@ func enumerate(alpha []byte, maxLen int, mine func(i int) bool, f func(s []byte)
 type token struct {
 	name string
 	b    []byte
+	want []ri.Ev // reference decoding on a terminal that supports the feature; nil = not specified
+	need string  // "", "mouse", "clipboard", "paste"
 }
+
+func keyEv(k tcell.Key, m tcell.ModMask) []ri.Ev { return []ri.Ev{{Kind: "key", Key: k, Mod: m}} }
 
 func tokens(e common.Entry, p *tcell.VerifParser) []token {
 	var t []token
-	add := func(n, s string) {
+	add := func(n, s string, want []ri.Ev, need string) {
 		if s != "" {
-			t = append(t, token{n, []byte(s)})
+			t = append(t, token{n, []byte(s), want, need})
 		}
 	}
-	add("KeyUp", e.Ti.KeyUp)
-	add("KeyF5", e.Ti.KeyF5)
-	add("KeyBackspace", e.Ti.KeyBackspace)
-	if s, ok := ri.XtermModified(e.Ti.KeyRight, 6); ok && e.Ti.Modifiers == 1 {
-		add("Ctrl-Shift-Right", s)
+	asg := ri.Assigned(e.Ti)
+	// keys: expectation only when the description gives the sequence exactly one reading
+	keyWant := func(seq string, alt bool) []ri.Ev {
+		a := asg[seq]
+		if len(a) == 0 {
+			return nil
+		}
+		for _, x := range a[1:] {
+			if x != a[0] {
+				if al, ok := ri.FnAlias(a[0].Key); !(ok && al == x) {
+					return nil
+				}
+			}
+		}
+		if _, isFn := ri.FnAlias(a[0].Key); isFn {
+			return nil // alias reading also acceptable: leave to C03
+		}
+		m := a[0].Mod
+		if alt {
+			m |= tcell.ModAlt
+		}
+		return keyEv(a[0].Key, m)
 	}
-	add("Alt-KeyDown", "\x1b"+e.Ti.KeyDown)
-	add("sgr-press", "\x1b[<0;3;4M")
-	add("sgr-release", "\x1b[<0;3;4m")
-	add("sgr-motion", "\x1b[<35;10;11M")
-	add("sgr-wheel", "\x1b[<65;1;1M")
-	add("x11-press", "\x1b[M !\"")
-	add("paste-start", "\x1b[200~")
-	add("paste-end", "\x1b[201~")
-	add("focus-in", "\x1b[I")
-	add("focus-out", "\x1b[O")
-	add("osc52-bel", "\x1b]52;c;QUJD\a")
-	add("osc52-st", "\x1b]52;c;QUI=\x1b\\")
-	add("a", "a")
-	add("e-acute", "\xc3\xa9")
-	add("invalid-ff", "\xff")
-	add("ctrl-a", "\x01")
-	add("alt-x", "\x1bx")
-	add("lone-esc", "\x1b")
+	add("KeyUp", e.Ti.KeyUp, keyWant(e.Ti.KeyUp, false), "")
+	add("KeyF5", e.Ti.KeyF5, keyWant(e.Ti.KeyF5, false), "")
+	add("KeyBackspace", e.Ti.KeyBackspace, nil, "")
+	if s, ok := ri.XtermModified(e.Ti.KeyRight, 6); ok && e.Ti.Modifiers == 1 {
+		add("Ctrl-Shift-Right", s, keyEv(tcell.KeyRight, tcell.ModCtrl|tcell.ModShift), "")
+	}
+	if e.Ti.KeyDown != "" && len(e.Ti.KeyDown) > 1 {
+		add("Alt-KeyDown", "\x1b"+e.Ti.KeyDown, nil, "")
+	}
+	mouse := func(x, y int, b tcell.ButtonMask) []ri.Ev { return []ri.Ev{{Kind: "mouse", X: x, Y: y, Buttons: b}} }
+	add("sgr-press", "\x1b[<0;3;4M", mouse(2, 3, tcell.Button1), "mouse")
+	add("sgr-release", "\x1b[<0;3;4m", mouse(2, 3, tcell.ButtonNone), "mouse")
+	add("sgr-motion", "\x1b[<35;10;11M", mouse(9, 10, tcell.ButtonNone), "mouse")
+	add("sgr-wheel", "\x1b[<65;1;1M", mouse(0, 0, tcell.WheelDown), "mouse")
+	add("x11-press", "\x1b[M !\"", mouse(0, 1, tcell.Button1), "mouse")
+	add("paste-start", "\x1b[200~", []ri.Ev{{Kind: "paste", Flag: true}}, "paste")
+	add("paste-end", "\x1b[201~", []ri.Ev{{Kind: "paste", Flag: false}}, "paste")
+	add("focus-in", "\x1b[I", []ri.Ev{{Kind: "focus", Flag: true}}, "")
+	add("focus-out", "\x1b[O", []ri.Ev{{Kind: "focus", Flag: false}}, "")
+	add("osc52-bel", "\x1b]52;c;QUJD\a", []ri.Ev{{Kind: "clipboard", Data: "ABC"}}, "clipboard")
+	add("osc52-st", "\x1b]52;c;QUI=\x1b\\", []ri.Ev{{Kind: "clipboard", Data: "AB"}}, "clipboard")
+	add("a", "a", []ri.Ev{{Kind: "key", Key: tcell.KeyRune, Rune: 'a'}}, "")
+	add("e-acute", "\xc3\xa9", []ri.Ev{{Kind: "key", Key: tcell.KeyRune, Rune: 0xe9}}, "")
+	add("invalid-ff", "\xff", nil, "")
+	add("ctrl-a", "\x01", nil, "")
+	add("alt-x", "\x1bx", []ri.Ev{{Kind: "key", Key: tcell.KeyRune, Rune: 'x', Mod: tcell.ModAlt}}, "")
+	add("lone-esc", "\x1b", keyEv(tcell.KeyEsc, 0), "")
 	return t
 }
 
@@ -474,9 +504,28 @@ func runEntry(w *hc.W, e common.Entry) {
 		selfDone bool
 	}
 	sing := make([]single, len(toks))
+	table := p.KeyTable()
+	_, hasPaste := table["\x1b[200~"]
 	for i, t := range toks {
 		a, f, _ := r.run(nil, [][]byte{t.b})
 		sing[i] = single{f.evs, a.pending == "" && !a.esc && len(a.evs) == len(f.evs)}
+		supported := t.need == "" || (t.need == "mouse" && p.HasMouse()) || (t.need == "clipboard" && p.HasClipboard()) || (t.need == "paste" && hasPaste)
+		// a token that is also (a prefix of) one of the description's own keys has the
+		// description's reading; C03 checks those
+		_, isKey := table[string(t.b)]
+		if t.want != nil && supported && !(isKey && t.need == "" && !strings.HasPrefix(t.name, "Key")) {
+			w.R.Evaluations++
+			norm := append([]ri.Ev{}, f.evs...)
+			for k := range norm {
+				if norm[k].Kind == "key" && norm[k].Key != tcell.KeyRune {
+					norm[k].Rune = 0
+				}
+			}
+			if !ri.EqEvs(norm, t.want) {
+				w.Violation("token:"+t.name, fmt.Sprintf("%s: token %s = %s decodes to %s, the protocol says %s", r.entry, t.name, q(t.b), f, state{evs: t.want}),
+					map[string]interface{}{"Entry": r.entry, "Charset": "UTF-8", "Prefix": "", "Chunks": []string{string(t.b)}})
+			}
+		}
 	}
 	ti := 0
 	maxTok := 3
